@@ -296,6 +296,11 @@ def check(prop, tier, seed, a, workdir, t_start):
                     samples.append(dict(group=g.name, config=cfg, obligation=p.get('property'), text=p.get('description'),
                                         status=p['status']))
                     break
+        if r.get('unreached'):
+            for fn_, ls in (r['unreached'].items() if isinstance(r['unreached'], dict) else []):
+                sys.stderr.write('UNREACHED in proof %s[%s%s] %s:\n' % (g.name, cfg, (' ' + r['label']) if r.get('label') else '', fn_))
+                for l_ in (ls if isinstance(ls, list) else [ls])[:12]:
+                    sys.stderr.write('    ' + str(l_) + '\n')
         if fails:
             def rank(p):
                 n = p.get('property', '')
